@@ -81,9 +81,14 @@ func genC14(g *G, n int, out io.Writer) {
 			}
 		}
 		withMaps := g.coin(0.85)
+		// the unit's source information: with a root location, without one, or no source-information node at all
+		// (lexical entries then still give line/column, with an empty uri unless an additional location lists the node)
+		rootMode := g.n(6) // 0: info node without rootLocation, 1: no info node, else: ordinary
 		if withMaps {
 			root := "file:///root.raml"
-			c.Root = &root
+			if rootMode > 1 {
+				c.Root = &root
+			}
 			// lexical entries: node-level, property-level only, none
 			var lexLinks []any
 			for k, id := range c.Targets {
@@ -122,7 +127,13 @@ func genC14(g *G, n int, out io.Writer) {
 				}
 			}
 			info := map[string]any{"@id": NodeNS + "BaseUnitSourceInformation", "@type": []string{DOC + "BaseUnitSourceInformation"}, DOC + "rootLocation": root}
+			if rootMode <= 1 {
+				delete(info, DOC+"rootLocation")
+			}
 			nLoc := g.n(4)
+			if rootMode == 1 {
+				nLoc = 0
+			}
 			var locLinks []any
 			for l := 0; l < nLoc; l++ {
 				loc := fmt.Sprintf("file:///lib%d.raml", l)
@@ -145,7 +156,9 @@ func genC14(g *G, n int, out io.Writer) {
 			if len(locLinks) > 0 {
 				info[DOC+"additionalLocations"] = locLinks
 			}
-			nodes = append(nodes, info)
+			if rootMode != 1 {
+				nodes = append(nodes, info)
+			}
 		}
 		for _, nd := range nodes {
 			c.NodeIds = append(c.NodeIds, nd["@id"].(string))
